@@ -97,6 +97,16 @@ def gen(chk, tier):
         nk += 1
         if nk >= (8 if q else 300):
             break
+    ny = 0
+    for yv in [1, 2, 3, 5, 7] + [D - 1 for D in limb_structured(rng, 20 if q else 400, maxbits=224)]:
+        if yv < 0 or yv + P >= T256:
+            continue
+        for xv in ec.xs_for_y(yv, rng)[:1]:
+            g.one("curve_small_y", "sm2.checkoncurve", x=b32(xv), y=b32(yv))
+            g.one("curve_noncanonical_y", "sm2.checkoncurve", x=b32(xv), y=b32(yv + P))
+            ny += 1
+        if ny >= (8 if q else 200):
+            break
     y0 = ec.lift_x(0)
     if y0 is not None:
         g.one("curve_x_zero", "sm2.checkoncurve", x=b32(0), y=b32(y0))
